@@ -91,10 +91,9 @@ void cc_static_pool_reset(CC_StaticPool* pool)
  */
 void* cc_static_pool_malloc(size_t size, CC_StaticPool* pool)
 {
-    uint8_t* page_max = pool->low_ptr + pool->size;
-    uint8_t* new_high = pool->high_ptr + size;
+    size_t used = pool->free_ptr - pool->low_ptr;
 
-    if (new_high >= page_max) {
+    if (size > pool->size - used) {
         return NULL;
     }
     uint8_t* ptr     = pool->free_ptr;
